@@ -5,7 +5,9 @@ PROP = {
         "with a 64-512 byte memtable (log rotation every few writes, background flush running), 0-2 goroutines "
         "calling FlushImMemTables, 0-1 calling TriggerCompaction, verifhook yield perturbation at every hook site, "
         "optionally a directed delay of the rotating goroutine (writers then fail with ErrWALRotating) or of a writer "
-        "that has loaded the log pointer until the rotation has closed that log (ErrWALClosed); every call bracketed by tickets of one atomic "
+        "that has loaded the log pointer until the rotation has closed that log (ErrWALClosed), or of the rotation "
+        "between the sequence hand-over and the pointer swap while clients overwrite the same keys in one memtable; "
+        "every call bracketed by tickets of one atomic "
         "counter; final reads of every key, in a third of the cases again after close+reopen. The recorded history "
         "is judged by the extracted lin_check (proved sound) and by an independent Go search (oracle). non-trivial = "
         ">= 2 threads, >= 3 overlapping pairs of calls on one key, >= 1 log rotation, >= 1 read of another thread's write",
